@@ -23,6 +23,12 @@ pub fn ctl_shape(n: u16, first_kind: u16) -> u16 {
     n | (first_kind << 2)
 }
 const VENDOR_LENS: [usize; 3] = [12, 13, 17];
+/// length of a vendor-specific identifier blob: the shape's, or the explicit one of a sweep program (override SX). A blob
+/// shorter than 12 bytes (Resource ID 1 + 2) gives a resource shorter than the 20-byte fixed part: the crate emits it as
+/// given, Length and checksum are judged, the body walk (C03) is not (`unwalkable`)
+fn vendor_len(f: &Fill, kind: u16) -> usize {
+    f.size2().unwrap_or(VENDOR_LENS[(kind - 4) as usize])
+}
 fn res_kind(shape: u16, r: u16) -> u16 {
     (((shape >> 2) & 7) + r) % 7
 }
@@ -35,7 +41,7 @@ fn real_res(f: &Fill, b: u8, kind: u16) -> rqsc::ResourceStructure {
         2 => I::ACPIDevice(rqsc::ACPIDeviceResource::new(f.u64(b + 3), f.u32(b + 2))),
         3 => I::PCIDevice(rqsc::PCIDeviceResource::new(f.u32(b + 2))),
         // the type byte is whatever the caller passes (0..=3 coincide with the typed resource kinds' codes: a look-alike)
-        k => I::VendorSpecific(f.u8(b + 4), crate::util::spare(vendor_bytes(f, b, VENDOR_LENS[(k - 4) as usize]))),
+        k => I::VendorSpecific(f.u8(b + 4), crate::util::spare(vendor_bytes(f, b, vendor_len(f, k)))),
     };
     rqsc::ResourceStructure::new(rt, f.u16(b + 1), id)
 }
@@ -58,7 +64,7 @@ fn ref_res(w: &mut W, f: &Fill, b: u8, kind: u16) {
                 x.u64(f.u64(b + 3)).u32(f.u32(b + 2));
             }
             k => {
-                x.b(&vendor_bytes(f, b, VENDOR_LENS[(k - 4) as usize]));
+                x.b(&vendor_bytes(f, b, vendor_len(f, k)));
             }
         }
         x.0
@@ -123,8 +129,19 @@ impl Table for Rqsc {
         }
     }
     /// every resource count 0..=40 for every first resource kind (controller sizes across 256), between other controllers
+    fn unwalkable(&self, ops: &[Op]) -> bool {
+        ops.iter().any(|o| o.k == 0 && o.fill.size2().map(|n| n < 12).unwrap_or(false))
+    }
     fn sweeps(&self, _level: u8) -> Vec<(String, Vec<Op>)> {
         let mut v = vec![];
+        // every length 0..=40 of a vendor-specific identifier blob (below 12 the resource is shorter than its fixed part),
+        // as the only, the first and the last resource of a controller between two other controllers
+        for n in 0..=40u64 {
+            for (nres, first) in [(1u64, 4u16), (2, 4), (2, 3), (3, 5)] {
+                let x = Op { k: 0, shape: ctl_shape(0, first), fill: crate::fill::Fill::b(2).with(crate::fill::SZ, nres).with(crate::fill::SX, n) };
+                v.push((format!("vendor blob of {} bytes [{} resources from kind {}]", n, nres, first), vec![Op::new(0, ctl_shape(1, 1), 1), x, Op::new(0, ctl_shape(2, 3), 2)]));
+            }
+        }
         for n in 0..=40u64 {
             for k in 0..7u16 {
                 if n > 6 && (n + k as u64) % 3 != 0 {
